@@ -13,7 +13,7 @@ LEVEL = 'exploration'
 RULE = ('(i) real fragment streams: everything C08 generates (1-3 chained source files, five printer configurations, '
         'comment capture on/off), written through sourcemap.write and encode_sourcemap; (ii) synthetic streams: lists '
         'of fragments whose text may contain LF/CR/CRLF anywhere, position in {none, implied (0,0), explicit '
-        '(>=1,>=1)}, optional original name, source in {None, three paths, NotImplemented}, well-formed as the write '
+        '(>=1,>=1)}, optional original name (also one equal to the text written, which is not judged itself), source in {None, three paths, NotImplemented}, well-formed as the write '
         'docstring defines (the first positioned fragment names its source), written in one call or (normalize off) split over up to four calls that share book, sources, names and mappings as documented; both x normalize in {True, False}. '
         'Oracle: the harness tracks the generated (line, column) at which each fragment is written; the encoded map '
         'is decoded by an independent Source Map V3 decoder (R3); every explicit fragment must decode - exact '
@@ -146,7 +146,7 @@ def check_stream(acc, opens, case, frags, normalize, judge_source=True, cuts=Non
             acc.fail(None, case, dict(what, bucket='source_differs', segment=list(seg),
                                       decoded_source=sm['sources'][seg[1]], expected=eff[i]), opens)
             return None
-        if name is not None:
+        if name is not None and name != text_:
             ex = [s for s in ref_sourcemap.exact(lines, gl, gc) if s[4] is not None]
             if not ex or sm['names'][ex[-1][4]] != name:
                 acc.fail(None, case, dict(what, bucket='name_differs', segments=[list(s) for s in ex]), opens)
@@ -191,6 +191,10 @@ def synthetic(draw):
             col = draw(st.one_of(st.integers(1, 60), st.sampled_from([1, 2, 17, 33, 65, 66, 129, 513, 1025, 4097])))
             if draw(st.integers(0, 3)) == 0:
                 name = draw(st.sampled_from(['orig', 'longOriginalName', 'x', 'orig', 'console', 'second', 'third']))
+                if text.isalnum() and draw(st.integers(0, 3)) == 0:
+                    # an original name equal to the text written (nothing was renamed): the writer may or may not
+                    # spend a name on it, the names of the fragments after it are judged all the same
+                    name = text
             frags.append((text, line, col, name, source))
         else:
             frags.append((text, 0, 0, None, source if source is not NotImplemented else None))
